@@ -76,7 +76,7 @@ theorem C08_overwrite_unknown_path (o : Options) (t : Tracer) (key : String) (f 
 /-- no overwrite at a node: its own `to_field` decides (the overwrite table is consulted by path only) -/
 theorem C08_no_overwrite_unknown (o : Options) (n p : String) (nl : Bool) (h : o.get_overwrite p = none) :
     (Tracer.unknown n p nl).to_field o =
-      if !o.allow_null_fields then fail "Encountered null only field" else .ok (.mk n .null nl []) := by
+      if !o.allow_null_fields then fail "Encountered null only field" else .ok (.mk n .null true []) := by
   simp only [Tracer.to_field, withOverwrite, h]
 
 /-! ### the documented mapping: general facts -/
